@@ -259,6 +259,13 @@ def ctl_scenarios() -> dict[str, dict[str, Any]]:
                                            "hold": "RunTask:g|CompleteWorkflow:", "workers": 2, "kind": "none", "programs": [1, 2]}
            for nm, tk in (("suspend", {"b": "suspend", "emit": []}), ("poll", {"b": "poll", "k": 2}), ("transient", {"b": "transient", "k": 2}),
                           ("jump", {"b": "jump", "to": "a", "j": 1}), ("ok", ok()))},
+        # ... and the same fan-out racing the JumpToStage the stage's task had queued (forward and backward jump)
+        "failcancel-vs-jump-forward": {"spec": {"name": "failjumpf", "stages": [stage("a", [], [ok()]), stage("b", ["a"], [{"b": "fail"}]), stage("g", ["a"], [{"b": "jump", "to": "z", "j": 1}]),
+                                                                                stage("m", ["g"], [ok()]), stage("z", ["m"], [ok()])]},
+                                       "hold": "JumpToStage:g|CompleteWorkflow:", "workers": 2, "kind": "none", "programs": [1, 2]},
+        "failcancel-vs-jump-backward": {"spec": {"name": "failjumpb", "stages": [stage("a", [], [ok()]), stage("b", ["a"], [{"b": "fail"}]), stage("g0", ["a"], [ok()]),
+                                                                                 stage("g", ["g0"], [{"b": "jump", "to": "g0", "j": 1}])]},
+                                        "hold": "JumpToStage:g|CompleteWorkflow:", "workers": 2, "kind": "none", "programs": [1, 2]},
         "cancel-vs-first-completestage": {"spec": two, "hold": "CompleteStage:a|CancelWorkflow:", "workers": 2, "kind": "cancel", "cancel_when": "CompleteStage:a"},
     }
 
